@@ -339,8 +339,22 @@ static int c03_progfile(toks_t *t)
   printf("R %lu %llu\n", n, h); free(jp); return 1;
 }
 
+/* arifile seed w h ri hs vs nc kind mode sseed : whole arithmetic-coded file */
+static int c03_arifile(toks_t *t)
+{
+  c03_job j; unsigned char *jp = NULL; unsigned long n = 0, i; int err = 0; unsigned long long h = 14695981039346656037ULL;
+  memset(&j, 0, sizeof(j));
+  j.seed = (unsigned long long)tll(t, 1); j.w = (int)tl(t, 2); j.h = (int)tl(t, 3); j.ri = (int)tl(t, 4); j.nc = (int)tl(t, 7);
+  j.ss = j.nc == 1 ? 3 : (int)tl(t, 5) * 10 + (int)tl(t, 6); j.prec = 8; j.kind = (int)tl(t, 8); j.mode = (int)tl(t, 9); j.sseed = (unsigned long long)tll(t, 10);
+  if (!c03_build(&j, &jp, &n, &err)) { printf("R err build %d\n", err); return 1; }
+  for (i = 0; i < n; i++) { h ^= jp[i]; h *= 1099511628211ULL; }
+  if (getenv("C03_DUMP")) { FILE *f = fopen(getenv("C03_DUMP"), "wb"); if (f) { fwrite(jp, 1, n, f); fclose(f); } }
+  printf("R %lu %llu\n", n, h); free(jp); return 1;
+}
+
 static int dispatch_c03(toks_t *t)
 {
+  if (!strcmp(t->tok[0], "arifile") && t->n >= 11) return c03_arifile(t);
   if (!strcmp(t->tok[0], "progfile") && t->n >= 10) return c03_progfile(t);
   if (!strcmp(t->tok[0], "ent") && t->n >= 12) return c03_ent(t);
   if (!strcmp(t->tok[0], "t81") && t->n >= 2) return c03_t81(t);
